@@ -369,6 +369,12 @@ func c05DumpAndCheck(h *vHarness, cache *reservationCache, objs map[int]*c05RObj
 				h.Fail("C05:index-dangling", "ForEachMatchableReservationOnNode(n%d) handed out a nil ReservationInfo", n)
 			} else {
 				seen = append(seen, c05UID(ri.UID()))
+				// evidence only (the index is refreshed by reservation events, not by pod events)
+				if ri.IsAllocateOnce() && len(ri.AssignedPods) > 0 {
+					h.Tag("fe:hands-out-allocate-once-with-pod")
+				} else if !ri.IsMatchable() {
+					h.Tag("fe:hands-out-unmatchable")
+				}
 			}
 			return true, nil
 		})
